@@ -5,7 +5,7 @@ from ..lib import driver, gen, implrun, ser
 ID = "C15"
 LEAN_MODULES = ["TakVerif.Props.C15"]
 # cross-operation sessions (lib/session.py): which operations this property judges
-SESSION = {"kinds": {"tpos"}, "lineage_kinds": {"tpos"}}
+SESSION = {"kinds": {"tpos", "variants"}, "lineage_kinds": {"tpos", "copy"}}
 RULE = (
     "matrices: the values of SYMMETRIES and the affine maps observed through transform_move on basis moves, compared as a SET "
     "with the model's eight (the property does not fix the enumeration order); transform_move: EVERY well-formed move of sizes "
